@@ -335,7 +335,20 @@ def run_impl_cases_sig(ctx, binary, lines, env, timeout):
         outs += out[:n]
         if n == len(todo):
             break
-        summ = ctx.sanitizer_summary(err) or ("timeout" if rc == -999 else "crash:rc=%d" % rc)
+        summ = ctx.sanitizer_summary(err) or ("timeout" if rc in (-999, -14) else "crash:rc=%d" % rc)
+        if summ == "timeout" or rc == -9:
+            # a watchdog firing (SIGALRM, rc -14) or a SIGKILL under memory pressure can be machine load, not a hang:
+            # the case is re-run ALONE once before it is believed (as vlib.run_impl_cases does)
+            import time
+            time.sleep(2.0)
+            rc2, out2, err2 = ctx.run_impl(binary, [todo[n]], env=env, timeout=timeout)
+            if rc2 == 0 and len(out2) == 1:
+                outs.append(out2[0])
+                ctx.stat("watchdog-fired-but-case-passed-alone")
+                todo = todo[n + 1:]
+                continue
+            summ = ctx.sanitizer_summary(err2) or ("timeout" if rc2 in (-999, -14) else "crash:rc=%d" % rc2)
+            err = err2
         ctx.last_abort_stderr = err[-6000:]
         outs.append(abort_signature("abort:" + summ, err))
         todo = todo[n + 1:]
